@@ -167,21 +167,22 @@ func ZZ_C44_ProposalSignature() {
 		zzsym.Assume(v != h.Timestamp)
 		h.Timestamp = v
 	case 2:
-		d := zzsym.U8("new.prev.delta")
-		zzsym.Assume(d != 0)
-		h.PrevBlockHash[zzsym.Choose("new.prev.pos", 32)] ^= d
+		v := zzC44Hash("new.prev")
+		zzsym.Assume(v != h.PrevBlockHash)
+		h.PrevBlockHash = v
 	case 3:
-		d := zzsym.U8("new.txroot.delta")
-		zzsym.Assume(d != 0)
-		h.TransactionsRoot[zzsym.Choose("new.txroot.pos", 32)] ^= d
+		v := zzC44Hash("new.txroot")
+		zzsym.Assume(v != h.TransactionsRoot)
+		h.TransactionsRoot = v
 	case 4:
 		v := zzsym.U64("new.cdata")
 		zzsym.Assume(v != h.ConsensusData)
 		h.ConsensusData = v
 	case 5:
-		d := zzsym.U8("new.nextbk.delta")
-		zzsym.Assume(d != 0)
-		h.NextBookkeeper[zzsym.Choose("new.nextbk.pos", 20)] ^= d
+		var v common.Address
+		copy(v[:], zzsym.Bytes("new.nextbk", 20))
+		zzsym.Assume(v != h.NextBookkeeper)
+		h.NextBookkeeper = v
 	}
 	zzsym.Assert(fresh.Verify(zzsym.PubKey(pub)) != nil, "Verify rejects a proposal whose block header differs from what was signed")
 	zzsym.Cover("proposal-mutated")
